@@ -37,6 +37,15 @@ DEDICATED = [
     ("impl_from_assign_generic", "#[derive_ex::derive_ex(Shl)]\nimpl<T: Copy> core::ops::ShlAssign<u8> for Ch<T> where T: core::ops::ShlAssign<u8> { fn shl_assign(&mut self, rhs: u8) { self.0 <<= rhs } }\npub struct Ch<T>(pub T);"),
     ("underscore_field_names_enum", "#[derive_ex::derive_ex(Clone, Debug, Default, PartialEq, Eq, PartialOrd, Ord, Hash)]\npub enum X { #[default] A { _pad: u8, _x1: u8 }, B(u8) }"),
     ("underscore_field_names_struct", "#[derive_ex::derive_ex(Clone, Debug, Default, PartialEq, Eq, PartialOrd, Ord, Hash, Add, SubAssign, Neg)]\npub struct X { pub _pad: i8, pub _x1: i8 }"),
+    ("non_snake_field_names_enum", "#[derive_ex::derive_ex(Clone, Debug, Default, PartialEq, Eq, PartialOrd, Ord, Hash)]\n#[allow(non_snake_case)]\npub enum X { #[default] A { fooBar: u8, Xy: u8 }, B(u8) }"),
+    ("deprecated_field", "#[derive_ex::derive_ex(Clone, Debug, Default, PartialEq, Eq, PartialOrd, Ord, Hash)]\npub struct X { #[deprecated] pub old: u8, pub b: u8 }"),
+    ("deprecated_variant", "#[derive_ex::derive_ex(Clone, Debug, PartialEq, Eq, PartialOrd, Ord, Hash)]\npub enum X { #[deprecated] Old(u8), New { #[deprecated] a: u8 } }"),
+    ("forbid_naming_lints", "#![forbid(non_snake_case, non_camel_case_types, non_upper_case_globals)]\n#[derive_ex::derive_ex(Clone, Debug, Default, PartialEq, Eq, PartialOrd, Ord, Hash)]\npub enum X<T> { #[default] A { a: u8, #[ord(by = crate::support::gby_ord)] #[hash(key = crate::support::gk(&$))] bb: Option<T> }, B(u8, #[eq(key = crate::support::gk(&$))] u8) }"),
+    ("forbid_deprecated", "#![forbid(deprecated)]\n#[derive_ex::derive_ex(Clone, Debug, Default, PartialEq, Eq, PartialOrd, Ord, Hash, Add, Neg)]\npub struct X { pub a: i8, pub b: i8 }"),
+    # recorded findings (known_findings.jsonl), re-observed on every run
+    ("kf_repr_packed", "#[derive_ex::derive_ex(Clone, PartialEq, Debug)]\n#[derive(Copy)]\n#[repr(packed)]\npub struct X { pub a: u8, pub b: u32 }"),
+    ("kf_default_none_nested_option", "#[derive_ex::derive_ex(Default)]\npub struct X { #[default(None)] pub a: Option<Option<u8>> }"),
+    ("type_macro_field", "macro_rules! v { ($t:ty) => { Vec<$t> } }\n#[derive_ex::derive_ex(Clone)]\npub struct X<T>(pub v!(T));"),
     ("ops_generic_all_forms", "#[derive_ex::derive_ex(Add, Sub, Mul, Div, Rem, BitAnd, BitOr, BitXor, Shl, Shr, AddAssign, SubAssign, MulAssign, DivAssign, RemAssign, BitAndAssign, BitOrAssign, BitXorAssign, ShlAssign, ShrAssign, Neg, Not)]\npub struct X<T, U> { pub a: T, pub b: U }"),
 ]
 
@@ -52,6 +61,8 @@ def run(ctx):
     kept, own_error = [], 0
     for p in progs:
         body = p.meta.get("plain") or p.text.split("\n\n")[0]
+        if "#[derive" in body and not body.startswith("#!["):
+            body = body[body.index("#[derive"):]        # helper items / macro definitions written in front of the item
         if body.startswith("#[derive_ex::derive_ex(") and "\nimpl" in body:
             # impl item: attribute entry point only; the item is the impl up to the end of its line
             a, rest = body[len("#[derive_ex::derive_ex("):].split(")]\n", 1)
